@@ -290,7 +290,10 @@ func (n *Nodis) SMove(source, destination, member string) bool {
 		meta.value.(*set.Set).SAdd(member)
 		n.signalModifiedKey(destination, meta)
 		n.notify(func() []patch.Op {
-			return []patch.Op{{Type: patch.OpTypeSAdd, Data: &patch.OpSAdd{Key: destination, Members: []string{member}}}}
+			return []patch.Op{
+				{Type: patch.OpTypeSRem, Data: &patch.OpSRem{Key: source, Members: []string{member}}},
+				{Type: patch.OpTypeSAdd, Data: &patch.OpSAdd{Key: destination, Members: []string{member}}},
+			}
 		})
 		// the member was removed from the source: it moved, whether or not the destination already had it
 		v = true
